@@ -6,8 +6,9 @@ import TarpcModel.Props.C03
 Property theorems only.  The client model has three panicking sites (`Client/Model.lean`): the uniqueness check of
 `insert_request`, `DelayQueue::remove` with an unknown key, and the range check of `DelayQueue::insert` (a timer more
 than `2^36 - 1` ms ahead of the wheel).  The first two are unreachable outright (`C11_only_insert_range_panic`,
-`C11_no_uniqueness_panic` in `Props/C11Client.lean`).  The third is unreachable because `insert_request` clamps the
-timeout it arms (`clampTimeout`, `Gen.clientTimerClampSecs` seconds): for a clock below `2^35` ms
+`C11_no_uniqueness_panic` in `Props/C11Client.lean`).  The third has two call sites — `insert_request` and the re-arm
+in `poll_expired` — and is unreachable at both because each clamps the timeout it arms (`clampTimeout`,
+`Gen.clientTimerClampSecs` seconds): for a clock below `2^35` ms
 `when - wheelElapsed ≤ ceilMs (now + clamp) ≤ now_ms + clamp_ms + 1 ≤ 2^36 - 1` whatever deadline the caller asks for.
 
 The scripts quantified over are all op lists whose total advanced virtual time `advSum ops` (the sum of their
